@@ -190,7 +190,26 @@ def h_hist__reach(init_mask: int, cache_state: int, o0: int, o1: int, o2: int, o
     assert ret is None  # twin: update_cache writing a non-empty cache is reachable
 
 
+def h_chunks(n: int, c: int):
+    """_split_and_print_progress (used to load state points in chunks once a project has thousands of uncached jobs): the chunks are a
+    partition of the input in order, for every length and chunk count (E1: the real generator with symbolic sizes)"""
+    assert 0 <= n <= 60 and 1 <= c <= 12
+    fresh_path()
+    n, c = ci(n, 0, 60), ci(c, 1, 12)
+    with nt():
+        items = list(range(n))
+        try:
+            chunks = list(P._split_and_print_progress(iterable=items, num_chunks=c, write=lambda *a, **k: None, desc="x"))
+            flat = [x for ch in chunks for x in ch]
+            ok = flat == items
+        except Exception as e:  # noqa
+            ok = False
+    reached()
+    assert ok
+
+
 HARNESSES = [
+    dict(name="h_chunks", timeout=(300, 600)),
     dict(name="h_hist", twin="h_hist__reach", timeout=(900, 3000), parts=(15, 15)),
 ]
 
